@@ -36,4 +36,5 @@ def run(rep):
 
 
 def replay(rep, case):
-    rep.fail("re-run the check")
+    from ..replay import rerun
+    rerun(rep, case, run)
